@@ -726,14 +726,23 @@ func c19Post(pi *core.PostInfo) (vios []*core.Violation, inconcl []string) {
 			if len(blk) > 6000 {
 				blk = blk[:6000]
 			}
-			vios = append(vios, &core.Violation{Property: "C19", Oracle: "race-detector", Target: "nas", Signature: "data-race:" + key, Detail: blk, Seed: pi.Seed,
-				Case: &core.Case{Oracle: "round", Target: "nas", I: []int64{int64(pi.Seed), 16, 72}}})
+			pid := pi.Property
+			if pid == "" {
+				pid = "C19"
+			}
+			kase := &core.Case{Oracle: "round", Target: "nas", I: []int64{int64(pi.Seed), 16, 72}}
+			if pid != "C19" {
+				kase = &core.Case{Oracle: "race-side", Target: pid}
+			}
+			vios = append(vios, &core.Violation{Property: pid, Oracle: "race-detector", Target: "nas", Signature: "data-race:" + key, Detail: blk, Seed: pi.Seed, Case: kase})
 		}
 	}
 	pi.Counters["race_report_blocks"] = int64(blocks)
 	pi.Counters["race_logs_read"] = int64(len(files))
 	return
 }
+
+func init() { core.RacePost = c19Post }
 
 func init() {
 	p := &core.Property{
@@ -745,7 +754,7 @@ func init() {
 			"values that a call writes (security.Count, MarshalBinary receivers in uePolicyContainer) are never shared — the statement covers distinct values or read-only sharing of a decoded message",
 			"schedules are sampled, not enumerated; a race needs only to be unordered, not to coincide in time",
 		},
-		Oracles: map[string]func(*core.Ctx, *core.Case){"cold-concurrent": coldConcurrent, "round": c19Round, "item": c19Item1},
+		Oracles: map[string]func(*core.Ctx, *core.Case){"cold-entries": coldEntries, "cold-concurrent": coldConcurrent, "round": c19Round, "item": c19Item1},
 		Shards:  4,
 		Post:    c19Post,
 		Floors: func(tier string, cov map[string]map[string]int64, cnt map[string]int64) []string {
@@ -841,6 +850,7 @@ func init() {
 				}})
 			}
 		}
+		us = append(us, coldEntryUnits(tier, "nas", "ident", "lists", "misc", "mac", "cipher", "qos", "pco", "uepolicy", "count")...)
 		return us
 	}
 	core.Register(p)
